@@ -37,6 +37,8 @@ def verify(name):
         r = subprocess.run([sys.executable, os.path.join(HERE, "tools", "run_baseline.py"), repo], capture_output=True, text=True)
         out["baseline_with_patch"] = r.stdout.strip().splitlines()[0] if r.stdout else r.stderr[-200:]
         out["baseline_passes"] = r.returncode == 0
+        if r.returncode != 0:
+            out["baseline_not_passed"] = [l.strip() for l in r.stdout.splitlines()[1:6]]
         r = subprocess.run(["/venv/bin/python", demo], cwd=d, env=dict(os.environ, PYTHONPATH=repo), capture_output=True, text=True)
         out["demo_exit_with_patch"] = r.returncode
     finally:
